@@ -8,6 +8,7 @@ package c14
 
 import (
 	"fmt"
+	"strings"
 
 	"pgregory.net/rapid"
 
@@ -29,6 +30,25 @@ func genRetranslate(rt *rapid.T) retranslateCase {
 	c := retranslateCase{}
 	n := rapid.IntRange(1, 4).Draw(rt, "npool")
 	for i := 0; i < n; i++ {
+		if i > 0 && chance(rt, 40, "sameQueryOtherConfig") {
+			// the same query under another configuration (other database of the cluster,
+			// other cluster, or single node): table names must follow the request's own
+			prev := c.Pool[int(spread(rt, "cloneOf")%uint64(i))]
+			e := poolEntry{Q: prev.Q, P: prev.P}
+			for k := 0; k < 4 && e.P.Cluster == prev.P.Cluster && e.P.DB == prev.P.DB; k++ {
+				if prev.P.Cluster != "" && chance(rt, 60, "otherDB") {
+					for _, d := range dbNames {
+						if d != prev.P.DB {
+							e.P.DB = d
+						}
+					}
+				} else {
+					genConfig(rt, &e.P)
+				}
+			}
+			c.Pool = append(c.Pool, e)
+			continue
+		}
 		q := genQuery(rt)
 		c.Pool = append(c.Pool, poolEntry{Q: q, P: genParams(rt, q)})
 	}
@@ -149,6 +169,34 @@ func predRetranslate(c retranslateCase, o *evid.Obs) error {
 			}
 		} else {
 			o.Tag("rejected-query")
+		}
+	}
+	cfgs := map[string]map[string]bool{}
+	for _, e := range c.Pool {
+		switch {
+		case e.P.Cluster == "":
+			o.Tag("config:single-node")
+		default:
+			o.Tag("config:cluster")
+		}
+		t := e.Q.Text()
+		if cfgs[t] == nil {
+			cfgs[t] = map[string]bool{}
+		}
+		cfgs[t][e.P.Cluster+"/"+e.P.DB] = true
+	}
+	for _, m := range cfgs {
+		if len(m) > 1 {
+			o.Tag("same-query-other-config")
+			dbs := map[string]bool{}
+			for k := range m {
+				if !strings.HasPrefix(k, "/") {
+					dbs[k] = true
+				}
+			}
+			if len(dbs) > 1 {
+				o.Tag("same-query-two-databases-or-clusters")
+			}
 		}
 	}
 	for _, e := range c.Pool {
